@@ -287,6 +287,8 @@ def node_of(path, rel, name, depth, content_facts=True, max_text=4096, zip_exts=
                 f["zip"] = read_zip(path)
         except OSError:
             f["unreadable"] = 1
+    if tkind != "f":
+        f["unreadable"] = 1       # nothing to read: dangling link, directory, special file (refused by open_file)
     if tkind in ("f", "d"):
         try:
             xs = os.listxattr(path)
@@ -370,7 +372,7 @@ def node_line(n, tzoff):
     fields = [str(n["depth"]), hx(n["name"]), n["kind"], str(n["size"]), str(n["mode"]), str(n["uid"]), str(n["gid"]),
               str(n["nlink"]), str(n["ino"]), str(n["dev"]), str(n["blocks"]), str(n["mtime"] + tzoff),
               hx(n["user"]) if n["user"] is not None else "!", hx(n["group"]) if n["group"] is not None else "!"]
-    for k in ("nl", "sb", "sha1", "sha256", "sha512", "sha3", "empty", "xa", "unlistable"):
+    for k in ("nl", "sb", "sha1", "sha256", "sha512", "sha3", "empty", "xa", "unlistable", "unreadable"):
         if k in f:
             fields.append("%s=%s" % (k, f[k]))
     if "text" in f:
